@@ -486,6 +486,7 @@ type NativeResult struct {
 	Timeout      bool     `json:"timeout"`
 	Leaked       int      `json:"leaked"`
 	LeakStacks   string   `json:"leak_stacks"`
+	Exited       bool     `json:"exited"` // the test process ended while this record ran
 }
 
 var replayMu sync.Mutex
@@ -583,6 +584,12 @@ func saveReplay(prop string, v *Violation) string {
 func confirms(v *Violation, nr *NativeResult) (bool, string) {
 	if nr == nil {
 		return false, "no native result"
+	}
+	if nr.Exited {
+		if v.ID == "tool-exits-with-error-status" {
+			return true, "the native process exited while main ran"
+		}
+		return false, "the native process ended during the run"
 	}
 	if nr.AssumeFailed {
 		return false, "native run rejected the inputs (assumption failed)"
